@@ -111,9 +111,26 @@ func featSeqs(s poly.Sequence) (out []string, perr string) {
 	}()
 	out = []string{}
 	for _, f := range s.Features {
+		if !resolvable(f.SequenceLocation, len(s.Sequence)) {
+			// the feature has no bases to report (annotation-only record, feature past the end): not asked
+			out = append(out, "<unresolvable>")
+			continue
+		}
 		out = append(out, f.GetSequence())
 	}
 	return out, ""
+}
+
+func resolvable(l poly.Location, n int) bool {
+	if len(l.SubLocations) == 0 {
+		return 0 <= l.Start && l.Start <= l.End && l.End <= n
+	}
+	for _, s := range l.SubLocations {
+		if !resolvable(s, n) {
+			return false
+		}
+	}
+	return true
 }
 
 // jsonRoundTrip writes s with polyjson.Write, returns the normalised real JSON, the value read back and its JSON form
@@ -151,6 +168,7 @@ func c15Replay(c json.RawMessage) Verdict {
 	var cs struct {
 		JSON  json.RawMessage `json:"json"`
 		Bases string          `json:"bases"`
+		Res   bool            `json:"res"`
 	}
 	if err := json.Unmarshal(c, &cs); err != nil {
 		fatal("C15 case: %v", err)
@@ -160,8 +178,11 @@ func c15Replay(c json.RawMessage) Verdict {
 		fatal("C15 spec json: %v", err)
 	}
 	s := seqFromJ(want.(map[string]interface{}))
+	if !cs.Res {
+		cs.Bases = "<unresolvable>"
+	}
 	before, perr := featSeqs(s)
-	if perr != "" || before[0] != cs.Bases {
+	if perr != "" || len(before) != 1 || before[0] != cs.Bases {
 		return bad("the assembled feature reports %q (%s), its location denotes %q", before, perr, cs.Bases)
 	}
 	real, back, backJ, e := jsonRoundTrip(s)
@@ -268,6 +289,14 @@ func c15Record(tier string, seed int64, emit func(interface{})) {
 		x := map[string]interface{}{"name": text(2), "gffversion": []string{"", "3"}[rng.Intn(2)], "rstart": rng.Intn(3), "rend": plen, "size": plen,
 			"type": "", "date": "", "definition": text(30), "accession": text(1), "version": text(1), "keywords": text(3), "organism": text(5),
 			"source": text(3), "origin": "", "description": text(4), "sequence": string(pb)}
+		switch rng.Intn(8) {
+		case 0: // annotation-only record: the features are drawn for plen bases, the sequence is absent
+			pb = nil
+			x["sequence"] = ""
+		case 1: // features may reach past the end of the sequence
+			pb = pb[:rng.Intn(plen+1)]
+			x["sequence"] = string(pb)
+		}
 		x["locus"] = map[string]interface{}{"name": text(1), "len": fmt.Sprint(plen), "mol": "DNA", "div": "SYN", "date": "01-JAN-2020", "coding": "bp",
 			"circular": rng.Intn(2) == 0, "linear": rng.Intn(2) == 0}
 		refs := []interface{}{}
@@ -359,6 +388,7 @@ func c15Record(tier string, seed int64, emit func(interface{})) {
 			sb[j] = "ACGT"[rng.Intn(4)]
 		}
 		q := poly.Sequence{Sequence: string(sb)}
+		same := true
 		q.Meta.Name, q.Meta.RegionStart, q.Meta.RegionEnd = "region"+fmt.Sprint(i), 1, ln
 		for j := 0; j < rng.Intn(10); j++ {
 			a := rng.Intn(ln)
@@ -367,10 +397,16 @@ func c15Record(tier string, seed int64, emit func(interface{})) {
 			f.SequenceLocation = poly.Location{Start: a, End: a + 1 + rng.Intn(ln-a)}
 			q.AddFeature(&f)
 		}
+		if rng.Intn(4) == 0 { // annotation-only GFF: no bases after ##FASTA
+			q.Sequence = ""
+		}
 		parsed := gff.Parse(gff.Build(q))
 		direct := gff.Build(parsed)
+		if len(parsed.Features) != len(q.Features) {
+			same = false
+		}
 		_, back, _, e := jsonRoundTrip(parsed)
-		same := e == "" && bytes.Equal(gff.Build(back), direct)
+		same = same && e == "" && bytes.Equal(gff.Build(back), direct)
 		emit(map[string]interface{}{"k": "conv", "fmt": "GFF", "same": same})
 	}
 }
